@@ -67,3 +67,11 @@ Proof.
   - constructor; [|constructor; [|constructor]]; (split; [|split]); vm_compute; reflexivity.
   - constructor; [vm_compute; reflexivity|constructor].
 Qed.
+
+(* F18: a comment after the last terminator that is not on the terminator's own line becomes an
+   extra, comment-only statement (Newline is not an end-of-statement type) *)
+Theorem C05_trailing_comment_refuted :
+  exists stmts, cur_split_stream (tx "select 1;
+-- c
+") = Ok stmts /\ List.length stmts = 2%nat.
+Proof. eexists. split; [vm_compute; reflexivity|reflexivity]. Qed.
